@@ -81,8 +81,11 @@ FirstDiff(a, b) == IF Len(a) # Len(b) THEN 0
                    ELSE IF \E i \in 1..Len(a) : a[i] # b[i] THEN CHOOSE i \in 1..Len(a) : a[i] # b[i] /\ \A j \in 1..(i-1) : a[j] = b[j]
                    ELSE -1
 
-(* named deviations: the answers of a second twin recorded under c.devs[id], when the id is enabled *)
-DevIds == {}
+(* named deviations: the answers of a second twin recorded under c.devs[id], when the id is enabled. *)
+(* "defmac-behind-failure": the macros defined by the forms BEHIND the failure point are installed,  *)
+(* too (defmac installs when the text is compiled; a failure at run time does not withdraw them):    *)
+(* its twin evaluated the prefix and then those macro definitions.                                  *)
+DevIds == {"defmac-behind-failure"}
 Explains(c, d) == DevOn(d) /\ d \in DOMAIN c.devs /\ c.a = c.devs[d]
 
 Judge(c) ==
